@@ -300,7 +300,12 @@ func runC10(c *Ctx) {
 	c10Chain(c, d)
 	c10Identifier(c, d)
 	c10Dedup(c, d)
+	c10ByReference(c, d)
 	c10DataReads(c)
+	// member access on `(x)` is refused only as long as the parser keeps the parentheses in the tree
+	if ro := c.needRoles("C10.parser-roles"); ro != nil {
+		c02NoUnwrap(c, ro, "C10.parentheses-kept")
+	}
 }
 
 // defaultReturnsError: the default arm of a dispatcher returns a non-nil error at result idx.
@@ -1262,4 +1267,61 @@ func (c *Ctx) inlineArmCoverage(rule string, d *Dispatcher, arm TSArm, name stri
 		c.R.Undecided(rule, name+"."+fld, c.P.Pos(f.Pos()), "list children visited inside the dispatcher's own arm are not analysed")
 	}
 	return n
+}
+
+// c10ByReference: every visitor works on the one collector of the analysis call. A visitor that receives the collector
+// by value (a value receiver, a struct parameter, a copy `*r`) appends to the field list of its own copy: the names
+// found below it are dropped when it returns. Decided: no function reachable from the analysis entry has a parameter
+// of the collector's struct type, and none loads a whole collector through a pointer.
+func c10ByReference(c *Ctx, d *Dispatcher) {
+	const rule = "C10.collector-by-reference"
+	entry := c.fn("ResolveReferenceFields")
+	if entry == nil || d == nil || d.Fn == nil || len(d.Fn.Params) == 0 {
+		return
+	}
+	coll := namedOf(deref(d.Fn.Params[0].Type()))
+	if coll == nil {
+		c.R.Undecided(rule, "collector-type", c.P.Pos(d.Fn.Pos()), "the dispatcher's first parameter is not a pointer to a named collector type")
+		return
+	}
+	if _, isPtr := d.Fn.Params[0].Type().Underlying().(*types.Pointer); !isPtr {
+		c.R.Check(rule, c.P.FuncKey(d.Fn), c.P.Pos(d.Fn.Pos()), false, "the dispatcher itself takes the collector by value")
+		return
+	}
+	isColl := func(t types.Type) bool {
+		n, ok := t.(*types.Named)
+		return ok && n.Obj() == coll.Obj()
+	}
+	rr := c.ReachFrom("fields-entry", entry, c.fn("ResolveReferenceFieldsNotLocal"))
+	n := 0
+	for _, f := range rr.Order {
+		if len(f.Blocks) == 0 {
+			continue
+		}
+		touches := false
+		for _, p := range f.Params {
+			if isColl(deref(p.Type())) {
+				touches = true
+			}
+		}
+		bad := ""
+		for _, p := range f.Params {
+			if isColl(p.Type()) {
+				bad = "parameter `" + p.Name() + "` is a copy of the collector"
+			}
+		}
+		instrs(f, func(b *ssa.BasicBlock, i int, in ssa.Instruction) {
+			if u, ok := in.(*ssa.UnOp); ok && u.Op == token.MUL && isColl(u.Type()) {
+				// a load of a whole collector; the entry's own initialisation of its local is a store, not a load
+				bad = "the collector is copied at " + c.P.InstrPos(in)
+				touches = true
+			}
+		})
+		if !touches {
+			continue
+		}
+		n++
+		c.R.Check(rule, c.P.FuncKey(f), c.P.Pos(f.Pos()), bad == "", "the field collector must be shared by reference among the visitors: "+bad+"; names appended below this point land in the copy and are lost (a name read only under this construct is not reported)")
+	}
+	c.R.Floor(rule, 5)
 }
